@@ -289,9 +289,9 @@ theorem get?_append_fresh (s : St) (c : Fr) (h : s.get? c.uid = none) (v : Nat) 
     cases hf : s.objs.find? (fun o => o.uid == v) <;> simp [hv, this]
 
 /-- what `Framer(name=…)` does to the heap -/
-theorem get?_newFramer (s : St) (name tag : String) (sched : Sched) (hfresh : s.get? s.nextUid = none) (v : Nat) :
-    (newFramer s name tag sched).1.get? v
-      = if v = s.nextUid then some (newFramer s name tag sched).2 else s.get? v := by
+theorem get?_newFramer (s : St) (house name tag : String) (sched : Sched) (hfresh : s.get? s.nextUid = none) (v : Nat) :
+    (newFramer s house name tag sched).1.get? v
+      = if v = s.nextUid then some (newFramer s house name tag sched).2 else s.get? v := by
   simp only [newFramer]
   exact get?_append_fresh s _ hfresh v
 
@@ -315,10 +315,10 @@ theorem cloneFramer_spec (s s1 : St) (orig c1 : Fr) (name tag : String) (hfresh 
           cases hq : lookup s.names name with
           | none => rfl
           | some x => simp [hq] at hn
-        have hget : ∀ v, (newFramer s name tag .aux).1.get? v
-            = if v = s.nextUid then some (newFramer s name tag .aux).2 else s.get? v :=
-          get?_newFramer s name tag .aux hfresh
-        generalize hnf : newFramer s name tag .aux = r at hc hget
+        have hget : ∀ v, (newFramer s orig.house name tag .aux).1.get? v
+            = if v = s.nextUid then some (newFramer s orig.house name tag .aux).2 else s.get? v :=
+          get?_newFramer s orig.house name tag .aux hfresh
+        generalize hnf : newFramer s orig.house name tag .aux = r at hc hget
         obtain ⟨s2, c2⟩ := r
         have hc2 : c2.uid = s.nextUid ∧ c2.name = name ∧ c2.tag = (if tag = "" then name else tag) ∧
             c2.original = true ∧ c2.ctl = {} ∧ c2.main = none ∧
